@@ -183,6 +183,31 @@ def case_rigid(fam, rep):
     return fn
 
 
+def case_prestretched(fam, rep):
+    def fn(run):
+        """Modal analysis about a converged, pre-stretched state: the field carries non-zero values on prescribed unknowns."""
+        import felupe as fem
+        rng = rng_for(run.seed, "C18", "prestretched", fam, rep)
+        attach_hooks(run)
+        try:
+            mesh, L = problems.box_mesh(fam, rng)
+            d = mesh.dim
+            field = problems.field_for(fam, mesh, "3d" if d == 3 else "planestrain")
+            solid = fem.SolidBody(fem.NeoHooke(mu=float(rng.uniform(0.5, 2)), bulk=float(rng.uniform(2, 8))), field, density=float(rng.uniform(0.5, 3)))
+            b, lc = fem.dof.uniaxial(field, clamped=True, move=float(rng.uniform(0.1, 0.3)) * L[0], sym=False)
+            fem.newtonrhapson(items=[solid], verbose=False, **lc)
+            k = int(rng.integers(2, 7))
+            job = fem.FreeVibration([solid], b).evaluate(k=k)
+            for n in range(k):
+                job.extract(n, inplace=False)
+            job.extract(0, inplace=True)
+            run.units["modal:prestretched"] += 1
+            run.configs.add(str(("prestretched", fam, k)))
+        finally:
+            attach.detach_all()
+    return fn
+
+
 def case_mixed(rep):
     def fn(run):
         import felupe as fem
@@ -215,12 +240,15 @@ def cases(tier, seed):
             out.append(("rigid:%s:%d" % (fam, rep), case_rigid(fam, rep)))
     for rep in range(1 if tier == "quick" else 4):
         out.append(("mixed:%d" % rep, case_mixed(rep)))
+    for fam in ("hexahedron", "quad", "tetra"):
+        for rep in range(1 if tier == "quick" else 4):
+            out.append(("prestretched:%s:%d" % (fam, rep), case_prestretched(fam, rep)))
     return out
 
 
 SPEC = {
     "required_units": ["modal:residual", "modal:prescribed", "modal:scatter", "modal:frequency", "modal:rigid-modes:2d", "modal:rigid-modes:3d",
-                       "modal:invariance", "modal:mixed-container"],
+                       "modal:invariance", "modal:mixed-container", "modal:prestretched"],
     "rule": ("linear-elastic bodies on 8 element families (3D and plane strain) with random box dimensions, elastic constants, densities, three "
              "kinds of boundary dictionaries, 1..12 requested modes; unconstrained bodies through a solver= with a small negative shift; "
              "mixed u/p/J container; every evaluate()/extract() is judged by the post-hooks with K and M re-assembled from item copies; a "
